@@ -196,10 +196,11 @@ func (f *F) Compile(id func(int) ecs.ID, target func(int) ecs.Entity) ecs.Filter
 	}
 	switch f.T {
 	case "mask":
-		m := ecs.All(mk(f.Ids)...)
 		if f.ByVal {
-			return m
+			// by value, and through package filter's own All
+			return filter.All(mk(f.Ids)...)
 		}
+		m := ecs.All(mk(f.Ids)...)
 		return &m
 	case "without":
 		m := ecs.All(mk(f.Ids)...).Without(mk(f.Ex)...)
